@@ -132,12 +132,14 @@ class Regions:
             if k >= len(args):
                 break
             a = args[k]
+            ent = {}
             if p.get("r") and not p.get("pd"):
-                genv[p["id"]] = ("r", self.rec(f, pos, a, env, depth + 1))
-            elif p.get("r") and p.get("pd"):
-                genv[p["id"]] = ("p", self.ptr(f, pos, a, env, depth + 1))
+                ent["r"] = self.rec(f, pos, a, env, depth + 1)
             else:
-                genv[p["id"]] = ("t", self.term(f, pos, a, env, depth + 1))
+                if p.get("r") and p.get("pd"):
+                    ent["p"] = self.ptr(f, pos, a, env, depth + 1)
+                ent["t"] = self.term(f, pos, a, env, depth + 1)
+            genv[p["id"]] = ent
         return genv
 
     def _returns(self, g):
@@ -156,8 +158,8 @@ class Regions:
             return self.term(f, pos, e["e"], env, depth + 1)
         if k == "var":
             if e["id"] in env:
-                kind, val = env[e["id"]]
-                return val if kind == "t" and val is not None else ("?", "param", e["id"])
+                val = env[e["id"]].get("t")
+                return val if val is not None else ("?", "param", e["id"])
             if "p" in e:
                 return ("param", f.name, e["id"])
             if pos is not None:
@@ -216,8 +218,7 @@ class Regions:
             return self.rec(f, pos, e["e"], env, depth + 1)
         if k == "var":
             if e["id"] in env:
-                kind, val = env[e["id"]]
-                return val if kind == "r" else None
+                return env[e["id"]].get("r")
             if "p" in e or pos is None or not (self.dirty_ok or self.clean_local(f, e["id"])):
                 return None
             d = reaching_def_pos(f, pos, e["id"])
@@ -309,8 +310,7 @@ class Regions:
             return self.rec(f, pos, e["e"], env, depth + 1)
         if k == "var":
             if e["id"] in env:
-                kind, val = env[e["id"]]
-                return val if kind == "p" else None
+                return env[e["id"]].get("p")
             if "p" in e or pos is None:
                 return None
             d = reaching_def_pos(f, pos, e["id"])
